@@ -28,6 +28,7 @@ class Gen:
         self.features = features or {}
         self.uses_enum = False
         self.in_fun = None
+        self.has_tracer = False
 
     # ---- helpers
     def node(self, k, **kw):
@@ -105,6 +106,10 @@ class Gen:
 
     def int_expr(self, scope, d=0):
         r = self.r
+        if d < 3 and self.has_tracer and r.random() < self.features.get("tracer", 0.05):
+            # tr(e) prints e and returns it: makes evaluation order, repetition
+            # and loss of a step observable
+            return self.node("call", f=self.node("var", n="tr"), args=[self.int_expr(scope, d + 1)])
         c = r.random()
         v = self.pick_var(scope, INT)
         if d >= 3 or c < 0.25:
@@ -202,6 +207,10 @@ class Gen:
         r = self.r
         if r.random() < self.err_rate / max(1, self.size):
             return self.bad_stmt(scope)
+        if depth >= 1 and r.random() < 0.04:
+            sc = self.shadow_closure(scope)
+            if sc:
+                return sc
         c = r.random()
         if c < 0.22:
             ty = r.choice([INT, INT, INT, BOOL, STR, LIST, OPT, ENUM])
@@ -242,7 +251,10 @@ class Gen:
             scope.append((k, INT))
             body = [self.node("upd", n=k, op="+", e=self.node("int", v=1))]
             body += self.stmts(scope, r.randint(1, 3), depth + 1, True, in_fun, budget)
-            w = self.node("while", c=self.paren(self.node("bin", op="<", l=self.node("var", n=k), r=self.node("int", v=bound))), b=body)
+            kv = self.node("var", n=k)
+            if self.has_tracer and r.random() < max(0.3, self.features.get("tracer", 0)):
+                kv = self.node("call", f=self.node("var", n="tr"), args=[kv])
+            w = self.node("while", c=self.paren(self.node("bin", op="<", l=kv, r=self.node("int", v=bound))), b=body)
             return [self.node("let", n=k, e=self.node("int", v=0)), w]
         if depth < 3 and c < 0.85:
             x = self.fresh("i")
@@ -271,7 +283,7 @@ class Gen:
             if r.random() < 0.8:
                 arms.append({"v": "", "bind": "", "wild": True, "b": self.stmts(scope, r.randint(0, 1), depth + 1, in_loop, in_fun, budget)})
             return self.node("match", s=self.expr(ENUM, scope, 1), arms=arms)
-        if depth < 2 and not in_fun and c < 0.99:
+        if depth < 3 and c < 0.99:
             # closure capturing the current scope
             name = self.fresh("c")
             p = self.fresh("a")
@@ -281,6 +293,26 @@ class Gen:
             scope.append((name, ("clo", (INT,), INT)))
             return self.node("let", n=name, e=self.node("lam", ps=[p], b=body, rt=INT))
         return self.node("show", e=self.int_expr(scope))
+
+    def shadow_closure(self, scope):
+        """Inside a nested block: shadow an outer Int variable, create a closure
+        that reads it, call the closure (now and through a second variable)."""
+        r = self.r
+        outer = [n for (n, t) in scope if t == INT and not n.startswith("k")]
+        if not outer:
+            return None
+        x = r.choice(outer)
+        cname, p = self.fresh("c"), self.fresh("a")
+        inner = scope + [(x, INT), (p, INT)]
+        body = [self.paren(self.node("bin", op=r.choice(["+", "-", "*"]), l=self.node("var", n=x), r=self.node("var", n=p)))]
+        out = [self.node("let", n=x, e=self.paren(self.node("bin", op="+", l=self.node("var", n=x), r=self.node("int", v=r.randint(10, 90))))),
+               self.node("let", n=cname, e=self.node("lam", ps=[p], b=body, rt=INT)),
+               self.node("show", e=self.node("call", f=self.node("var", n=cname), args=[self.int_expr(scope, 2)]))]
+        if r.random() < 0.5:
+            out.insert(2, self.node("set", n=x, e=self.int_expr(scope, 2)))
+        scope.append((x, INT))
+        scope.append((cname, ("clo", (INT,), INT)))
+        return out
 
     def flat(self, xs):
         out = []
@@ -310,6 +342,11 @@ class Gen:
 
     def program(self, pid):
         r = self.r
+        if r.random() < 0.7 or self.features.get("tracer"):
+            x = "x0"
+            self.funs.append({"n": "tr", "ps": [x], "pt": [INT], "rt": INT, "line": 0,
+                              "b": [self.node("show", e=self.node("var", n=x)), self.node("var", n=x)]})
+            self.has_tracer = True
         nf = r.randint(0, 3)
         for i in range(nf):
             name = f"f{i + 1}"
